@@ -186,6 +186,9 @@ def step (σ : St) (op obs : List String) : St × List Msg :=
       ({ σ' with implGroup := cur },
         expectEq "release.parked" (showParked σ') (normParked σ' pk) ++ expectEq "release.groups" (showPairs σ'.groupPairs) grp
         ++ checkMonotone σ σ.implGroup cur ++ (if older then [.tag "released-newer-first"] else [.tag "release"]))
+  | ["procs", _], [pk] =>
+    -- a change of GOMAXPROCS at run time is no event of the model: the owner of an alert is fixed when the dispatcher starts
+    (σ, expectEq "procs.parked" (showParked σ) (normParked σ pk) ++ [.tag "procs:changed-at-runtime"])
   | ["groups"], [grp] =>
     if !σ.started then (σ, expectEq "groups" "loading" grp) else
     let rec loadRest (σ : St) (n : Nat) : St := match n with
